@@ -13,8 +13,10 @@ Doers that end by abort (the faulting doer and the DoDoers the exception unwinds
 through) are not members of S: they necessarily exit first.
 A doer that removed itself from its scheduler's list keeps running (documented and
 upstream-tested); if it is still alive at the stop it is a member of S like any
-other and its exit is ordered by when it was entered.  Not ordered: a pair (a, b)
-where b was added by a call made from a's own enter context (nested enters).
+other and its exit is ordered by when it was entered.  A pair (a, b) where b was
+added by a call made from a's own enter context (nested enters) is ordered by the
+START of the enters, i.e. by the order of the enter events any observer sees: a's
+enter began first, so b exits first (own signature).
 """
 from vlib import sched, schedgen
 from vlib.core import Result
@@ -33,13 +35,14 @@ def order_check(run, group, what):
     for i in range(len(g)):
         for j in range(i + 1, len(g)):
             a, b = g[i], g[j]
-            if sched.nested_enter(run, a[1], a[0], b[1]):
-                # b was added by a call made from a's own enter context: a's enter began first, b's finished first;
-                # which of the two "was entered first" is a matter of reading, the pair is not ordered
-                continue
             if not (b[2] < a[2]):
+                # b added by a call made from a's own enter context: a's enter began first (the order of the enter events),
+                # so a "was entered" first and b exits first; reported under its own signature
+                nested = sched.nested_enter(run, a[1], a[0], b[1])
                 out.append(("%s: %s entered before %s but exited before it (enter seq %d < %d, exit seq %d < %d)" % (
-                    what, a[0], b[0], a[1], b[1], a[2], b[2]), (a[0], b[0])))
+                    what, a[0], b[0], a[1], b[1], a[2], b[2]) +
+                    (" [%s was entered from inside the enter context of %s]" % (b[0], a[0]) if nested else ""),
+                    (a[0], b[0]) if not nested else (a[0], b[0], "nested")))
     return out
 
 
@@ -139,13 +142,16 @@ def judge(prog, run, r):
             # the other)
             for msg, pair in order_check(run, sub, "%s, doers of %s" % (what, h)):
                 midcycle = run.exc is not None or what.startswith("remove")
+                nested = len(pair) == 3
+                pair = pair[:2]
                 selfrem = [n for n in pair if n in gone]
                 # entered by an extend() made from another doer's enter context, i.e. while the scheduler was still
                 # entering the doers listed before it: its list position is behind doers that were entered after it
                 inenter = [n for n, es, _x in sub if n in pair and any(
                     c["op"] == "extend" and c.get("where") == "enter" and c["seq0"] <= es < c.get("seq1", 10 ** 9)
                     for c in run.calls)]
-                sig = ("C02/exit-order-after-self-remove" if selfrem else
+                sig = ("C02/exit-order-of-doer-entered-from-an-enter-context" if nested else
+                       "C02/exit-order-after-self-remove" if selfrem else
                        "C02/exit-order-after-enter-context-extend" if inenter else "C02/exit-order")
                 if sig in seen_sigs:
                     continue
